@@ -1,6 +1,7 @@
 (* Correspondence suites for C14: suite name -> arguments -> observation text.
    Events travel as  srcflag ("1" = has a source), source name, command, params... *)
 Require Import Bytes Names GoUpperAscii Ctcp WireOut.
+Require Event.
 
 Definition one_byte (b : N) (s : str) : bool := match s with [c] => c =? b | _ => false end.
 
@@ -131,6 +132,27 @@ Definition show_table_case (args : list str) : str :=
   | _ => bs "?args"
   end.
 
+(* ---- the real read path: raw line -> ParseEvent -> DecodeCTCP / CTCP stage ------------ *)
+
+(* Model/Event.v parse_event keeps everything but CR/LF at the ends of the line, so white
+   space after the closing 0x01 stays part of the trailing parameter *)
+Definition ev_of_wevent (w : Event.wevent) : event :=
+  mk_event (option_map Event.ws_name (Event.we_src w)) (Event.we_cmd w) (Event.we_params w).
+
+Definition show_line_decode (raw : str) : str :=
+  match Event.parse_event raw with
+  | Panic => bs "PANIC"
+  | Ok None => bs "noparse"
+  | Ok (Some w) => show_decode (decode_ctcp (ev_of_wevent w))
+  end.
+
+Definition show_line_replies (variant raw : str) : str :=
+  match Event.parse_event raw with
+  | Panic => bs "PANIC"
+  | Ok None => bs "noparse"
+  | Ok (Some w) => show_outs (ctcp_stage (table_of_variant variant) (ev_of_wevent w))
+  end.
+
 Definition run_C14 (suite : str) (args : list str) : option str :=
   if streqb suite (bs "ctcp.decode") then Some (show_decode (decode_ctcp (ev_of_args args)))
   else if streqb suite (bs "ctcp.roundtrip") then
@@ -146,6 +168,10 @@ Definition run_C14 (suite : str) (args : list str) : option str :=
                          else ctcp_stage (table_of_variant variant) (ev_of_args rest))
           | _ => bs "?args"
           end)
+  else if streqb suite (bs "ctcp.decode.line") then
+    Some (match args with raw :: _ => show_line_decode raw | _ => bs "?args" end)
+  else if streqb suite (bs "ctcp.replies.wire") then
+    Some (match args with variant :: raw :: _ => show_line_replies variant raw | _ => bs "?args" end)
   else if streqb suite (bs "ctcp.parsecmd") then
     Some (match args with
           | name :: _ => hex (parse_cmd name)
